@@ -373,6 +373,16 @@ func checkC03(c *Ctx) {
 		// empty statement between A and B or not - empty statements are not compared
 		resp.Dump = strings.ReplaceAll(resp.Dump, " (empty)", "")
 		cs.want = strings.ReplaceAll(cs.want, " (empty)", "")
+		// a program whose only statements are separators has no statement: whether its (empty)
+		// executable section is present or absent is the same tree
+		noExec := func(d string) string {
+			const e = ") (exec (inputs) (block) (catches)))"
+			if strings.HasSuffix(d, e) {
+				return strings.TrimSuffix(d, e) + ") nil)"
+			}
+			return d
+		}
+		resp.Dump, cs.want = noExec(resp.Dump), noExec(cs.want)
 		if resp.Dump != cs.want {
 			c.Violation(key, fmt.Sprintf("layout [%s]: parsed tree differs from the prescribed tree\n parsed:   %s\n expected: %s\nsource:\n%s", cs.layout, clip(diffAt(resp.Dump, cs.want), 500), clip(diffAt(cs.want, resp.Dump), 500), clip(cs.src, 900)), rp)
 			return
